@@ -83,6 +83,8 @@ class RustMagicNumberAnalyzer(RustBaseAnalyzer):
         try:
             if node.type == "float_literal":
                 return float(cleaned)
+            if cleaned.isdigit():
+                return int(cleaned)  # decimal; Rust allows leading zeros (0042)
             return int(cleaned, 0)  # Handles hex, octal, binary
         except (ValueError, TypeError):
             return None
